@@ -543,7 +543,7 @@ def run(ctx: core.Ctx):
         proved = ctx.prove(
             [ctx.build + "/gen/C01Facts.v", core.COQ + "/props/C01.v"],
             dep_theories=["Base/Val.v", "Base/Expr.v", "Base/Sort.v", "Sql/Block.v", "Sql/Norm.v",
-                          "Model/Chain.v", "Model/ChainProof.v", "Model/ChainOrder.v", "Model/ChainCheck.v", "Model/ChainExt.v",
+                          "Model/Chain.v", "Model/ChainProof.v", "Model/ChainOrder.v", "Model/ChainCheck.v", "Model/ChainExt.v", "Model/ChainExtProof.v",
                           "Model/ChainCheckX.v"])
     if not t1_ok:
         # the case files need Gen.C01Facts: fall back to the facts of the pinned source so that the search can run
